@@ -587,6 +587,10 @@ def chk_segwit_string(hrp, s):
                 why = "too-long"
             return {"kind": "decode-accepts-invalid", "why": why, "got": str(got)}
         return {"kind": "decode-differs-from-reference", "got": str(got), "want": str(want)}
+    if got is not None:
+        back = _bm.encode(hrp, got[0], got[1])
+        if back != s.lower():
+            return {"kind": "encode-of-decode", "back": back}
     return None
 
 
